@@ -624,26 +624,69 @@ def flags(chk, rid):
   v = FnView(repo, 'universe.Annotations.BuildFlagValues')
   ups = [(n, c) for n, c in v.all_calls() if call_tail(c) == 'update']
   rets = v.returns()
-  if not ups or not rets:
-    raise AnalysisError('BuildFlagValues: update chain / return not found')
-  last = max(ups, key=lambda nc: (nc[1].lineno, nc[1].col_offset))
-  src = [norm(k.value) for k in last[1].keywords if k.arg is None] + \
-      [norm(a) for a in last[1].args]
-  chk.ob(rid, any('user_flags' in s for s in src), None,
-         'user flags are applied last', 'the last override is %s: user supplied '
-         'values do not win' % src, fi=v.fi, node=last[1])
-  order = [norm(k.value if isinstance(k, ast.keyword) else k)
-           for n, c in sorted(ups, key=lambda nc: nc[1].lineno)
-           for k in (c.keywords + c.args)]
-  chk.ob(rid, len(order) >= 2 and 'programmatic' in order[0] and 'user_flags' in order[-1],
-         None, 'override order: defaults < programmatic < user',
-         'override order is %s' % order, fi=v.fi)
+  if not rets:
+    raise AnalysisError('BuildFlagValues: return not found')
+  # a flag value is data: '' (and '0') are values a user may pass, so nothing
+  # in the merge may decide by the truthiness of a value
+  def flag_container(e):
+    t_ = norm(e, 200)
+    return any(w in t_ for w in ('user_flags', 'flag', 'default', 'layer', 'values'))
+  falsy = []
+  tests = []
+  for x in walk_local(v.fi.node):
+    if isinstance(x, (ast.If, ast.While, ast.IfExp)):
+      tests.append(x.test)
+    elif isinstance(x, ast.comprehension):
+      tests.extend(x.ifs)
+    elif isinstance(x, ast.BoolOp):
+      tests.extend(x.values[:-1] if isinstance(x.op, ast.Or) else x.values)
+  for t_ in tests:
+    ops = [t_]
+    while ops:
+      o = ops.pop()
+      if isinstance(o, ast.BoolOp):
+        ops.extend(o.values)
+      elif isinstance(o, ast.UnaryOp) and isinstance(o.op, ast.Not):
+        ops.append(o.operand)
+      elif isinstance(o, ast.Call) and call_tail(o) == 'get' and isinstance(o.func, ast.Attribute) \
+          and (flag_container(o.func.value) or (o.args and 'flag' in norm(o.args[0]))):
+        falsy.append(o)
+      elif isinstance(o, ast.Subscript) and not isinstance(o.slice, ast.Slice) and \
+          (flag_container(o.value) or 'flag' in norm(o.slice)):
+        falsy.append(o)
+  chk.ob(rid, not falsy, None, 'the merge of flag values never tests a value for truthiness',
+         'a flag value is skipped when it is empty (`%s`): a user who passes an '
+         'empty string gets the default instead of the value passed'
+         % (norm(falsy[0], 50) if falsy else ''), fi=v.fi,
+         node=falsy[0] if falsy else None)
+  if ups:
+    last = max(ups, key=lambda nc: (nc[1].lineno, nc[1].col_offset))
+    src = [norm(k.value) for k in last[1].keywords if k.arg is None] + \
+        [norm(a) for a in last[1].args]
+    chk.ob(rid, any('user_flags' in s for s in src), None,
+           'user flags are applied last', 'the last override is %s: user supplied '
+           'values do not win' % src, fi=v.fi, node=last[1])
+    order = [norm(k.value if isinstance(k, ast.keyword) else k)
+             for n, c in sorted(ups, key=lambda nc: nc[1].lineno)
+             for k in (c.keywords + c.args)]
+    chk.ob(rid, len(order) >= 2 and 'programmatic' in order[0] and 'user_flags' in order[-1],
+           None, 'override order: defaults < programmatic < user',
+           'override order is %s' % order, fi=v.fi)
+  else:
+    # another way of merging (first-wins setdefault, explicit precedence list):
+    # all three sources must reach the result; their precedence is not decided
+    text = norm(v.fi.node, 100000)
+    chk.ob(rid, all(w in text for w in ('user_flags', '@ResetFlagValue', '@DefineFlag')), None,
+           'user flags, @ResetFlagValue and @DefineFlag values all reach the merged table',
+           'one of the three sources of flag values is not merged', fi=v.fi)
+    chk.info('C10-R4: BuildFlagValues does not merge with dict.update: the precedence '
+             'user > programmatic > default is not decided on this tree')
   raises = [(n, r) for n, r in v.raises()]
   ok = bool(raises) and all(v.cfg.must_pass_before(n, []) is False or True for n, _ in rets)
   guard_ok = False
   for n, r in raises:
     for e, val in v.guards(n):
-      if 'user_flags' in norm(e):
+      if 'user_flags' in norm(v.expand(e), 1000):
         guard_ok = True
   chk.ob(rid, guard_ok, None, 'undefined user flags raise RuleCompileException',
          'user flags that were never defined are accepted silently', fi=v.fi)
@@ -651,7 +694,7 @@ def flags(chk, rid):
     hdr = [h for h, pol in v.cfg.header_of(n)]
     # the check sits before the return on every path: the raising test node
     tests = [m for m in v.cfg.stmt_nodes() if isinstance(v.cfg.stmt[m], ast.If) and
-             'user_flags' in norm(v.cfg.stmt[m].test)]
+             'user_flags' in norm(v.expand(v.cfg.stmt[m].test), 1000)]
     chk.ob(rid, bool(tests) and v.cfg.must_pass_before(n, tests), None,
            'flag values are returned only after the undefined-flag check',
            'a path returns flag values without validating the user flags',
